@@ -4,7 +4,7 @@ import RV.Proofs.CacheFifoOrder
 
 `step_log`: every step appends a (possibly empty) list of events to the log, and each
 call/return event it appends is explained by the action and the pc of the acting thread
-(`Allowed`).  `step_cl`: a step moves the pc of a thread other than its owner only by
+(`Allowed`).  `step_cl_f`: a step moves the pc of a thread other than its owner only by
 completing that thread's blocked send.  Plus induction over runs from a reachable state.
 -/
 namespace RV.Cache
@@ -36,7 +36,7 @@ def LogExt (s : State) (a : Action) (s' : State) : Prop :=
 theorem LogExt.nil {s s' : State} {a : Action} (h : s'.log = s.log) : LogExt s a s' :=
   ⟨[], by simp [h], by simp⟩
 
-theorem evictAll_log (s : State) (st : Store) (ks : List Hash) :
+theorem evictAll_log_f (s : State) (st : Store) (ks : List Hash) :
     ∃ evs, (evictAll s st ks).log = evs ++ s.log ∧ ∀ e ∈ evs, (∃ v, e = .exit v) ∨ ∃ h c v k, e = .evict h c v k := by
   induction ks generalizing s with
   | nil => exact ⟨[], rfl, by simp⟩
@@ -177,7 +177,7 @@ theorem logExt_clientStep {cfg : Cfg} {s s' : State} {t : Tid} {ch : Choice}
         · simp at hr
         · simp only [Option.some.injEq] at hr; subst hr
           rename_i ks _ _
-          obtain ⟨evs, h1, h2⟩ := evictAll_log s s.store ks
+          obtain ⟨evs, h1, h2⟩ := evictAll_log_f s s.store ks
           refine ⟨evs, by simpa using h1, ?_⟩
           intro e he
           rcases h2 e he with ⟨v, rfl⟩ | ⟨_, _, _, _, rfl⟩ <;> simp [Allowed]
@@ -264,11 +264,11 @@ def Action.owner : Action → Tid → Prop
   | _, _ => False
 
 /-- a step of somebody else changes `t`'s pc only by completing `t`'s blocked send -/
-def ClOther (s s' : State) (t : Tid) : Prop :=
+def ClOtherF (s s' : State) (t : Tid) : Prop :=
   s'.cl t = s.cl t ∨ ((s.cl t).blocked = true ∧ s'.cl t = unblockedPc (s.cl t))
 
 theorem recv_clOther {cfg : Cfg} {s s1 : State} {x : BufElem} (hq : QueueInv cfg s) (h : recvBuf s = some (x, s1)) (t : Tid) :
-    ClOther s s1 t := by
+    ClOtherF s s1 t := by
   obtain ⟨_, _, (⟨_, rfl⟩ | ⟨t0, e, q, hsq, rfl⟩)⟩ := recvBuf_cases h
   · exact Or.inl rfl
   · by_cases ht : t = t0
@@ -279,8 +279,8 @@ theorem recv_clOther {cfg : Cfg} {s s1 : State} {x : BufElem} (hq : QueueInv cfg
     · exact Or.inl (by simp [setCl_cl_ne _ _ _ ht])
 
 theorem clOther_clientStep {cfg : Cfg} {s s' : State} {t0 : Tid} {ch : Choice} (hq : QueueInv cfg s)
-    (hs : clientStep cfg s t0 ch = some s') (t : Tid) (hne : t ≠ t0) : ClOther s s' t := by
-  apply clientStep_cases hs (motive := fun s' => ClOther s s' t)
+    (hs : clientStep cfg s t0 ch = some s') (t : Tid) (hne : t ≠ t0) : ClOtherF s s' t := by
+  apply clientStep_cases hs (motive := fun s' => ClOtherF s s' t)
   case setStart => intros; exact Or.inl (stSetStart_cl_ne (hne := hne) ..)
   case setUpd => intros; exact Or.inl (stSetUpd_cl_ne (hne := hne) ..)
   case setExit => intros; exact Or.inl (stSetExit_cl_ne (hne := hne) ..)
@@ -331,8 +331,8 @@ theorem clOther_clientStep {cfg : Cfg} {s s' : State} {t0 : Tid} {ch : Choice} (
       · exact recv_clOther hq hr t
 
 theorem clOther_applierStep {cfg : Cfg} {s s' : State} {ch : Choice} (hq : QueueInv cfg s)
-    (hs : applierStep cfg s ch = some s') (t : Tid) (hne : ¬ (Action.applier ch).owner t) : ClOther s s' t := by
-  apply applierStep_cases hs (motive := fun s' => ClOther s s' t)
+    (hs : applierStep cfg s ch = some s') (t : Tid) (hne : ¬ (Action.applier ch).owner t) : ClOtherF s s' t := by
+  apply applierStep_cases hs (motive := fun s' => ClOtherF s s' t)
   case idle =>
     intro hpc hr
     unfold apIdle at hr
@@ -370,8 +370,8 @@ theorem clOther_applierStep {cfg : Cfg} {s s' : State} {ch : Choice} (hq : Queue
   case swPolDel => intros; exact Or.inl (by simp)
 
 /-- A step whose owner is not `t` changes `t`'s pc at most by completing `t`'s blocked send. -/
-theorem step_cl {cfg : Cfg} {s s' : State} {a : Action} (hq : QueueInv cfg s) (hs : step cfg s a = some s')
-    (t : Tid) (hne : ¬ a.owner t) : ClOther s s' t := by
+theorem step_cl_f {cfg : Cfg} {s s' : State} {a : Action} (hq : QueueInv cfg s) (hs : step cfg s a = some s')
+    (t : Tid) (hne : ¬ a.owner t) : ClOtherF s s' t := by
   cases a with
   | spawn t0 c =>
     have : t ≠ t0 := fun e => hne (by simp [Action.owner, e])
@@ -399,7 +399,7 @@ theorem Reach.run {cfg : Cfg} {s s' : State} {acts : List Action} (h : Reach cfg
 
 /-- Induction along a run from a reachable state; the step case may use that the action is one
 of the run's. -/
-theorem run_induction {cfg : Cfg} {P : State → Prop} {s0 s : State} {acts : List Action}
+theorem run_induction_f {cfg : Cfg} {P : State → Prop} {s0 s : State} {acts : List Action}
     (h0 : Reach cfg s0) (hp : P s0)
     (hstep : ∀ s a s', Reach cfg s → P s → a ∈ acts → step cfg s a = some s' → P s')
     (hr : run cfg s0 acts = some s) : P s := by
